@@ -585,3 +585,29 @@ _ADDED = {
 for _k, _v in _ADDED.items():
     DOC[_k]['level'] += ' ' + _v
 DOC['C18']['note'] = DOC['C18']['note'].replace('folding of names done by the recorder with strings.ToLower', "folding of names done by the recorder with the library's own rule (strings.ToUpper)")
+
+# coverage added after the fourth round of seeded changes
+_ADDED4 = {
+    'C01': 'Constants are identified with their type (a string constant and a number constant with the same spelling occur in one expression); the token list is taken from a separate tokenizer.',
+    'C02': 'The program, names and tokens of the previous parser are re-inspected after the next parser has worked (Held.tla), the token list given to ParseTokens after later calls; ParseString texts with comments between the tokens.',
+    'C03': 'Scripts of public calls over three calculators and two templates that are alive together (set, evaluate, add/remove variables and functions, clear, automatic variables; directed use-change-use triples and seeded walks) and user functions that evaluate on another calculator; a crash that depends on earlier cases is confirmed by re-running the deterministic driver.',
+    'C04': 'For a sample of the cases: the returned list is re-inspected after the same tokenizer tokenized another text, the option-free stream of a tokenizer that ran the same text with options before equals that of a new one, the list and tokenizer of the previous case are re-inspected after the next case; two more tokenizer configurations (expression tokenizer with user symbols, a second quote state of another type), user symbols of 9 and 11 characters.',
+    'C05': 'Also: options changed between two inputs and directly after the reader was attached, the same scanner object reset and attached again / tokenized as a whole with a look-ahead token pending, symbols registered after the tokenizer has read their first character, earlier whole-buffer results re-inspected, another operations manager installed between two evaluations of one compiled expression.',
+    'C06': 'Histories on one manager with operand objects re-assigned in place (every step equals the same call on a new manager with new operand objects; earlier results re-inspected), operands must be unchanged by a call and the same call repeatable, date-times carried in other zones.',
+    'C07': 'Also: Unix-second / millisecond conversions compared on decimal texts of any magnitude, instants inside the repeated / skipped hours of zones with daylight saving (also as the host zone), type codes that name no type.',
+    'C08': 'Also: the caller\'s argument list must hold the same objects after the call, a second call after the caller scribbled on the first result must return the same, Date compared with the host calendar for carried components under host zones with daylight saving, calendar sweeps (last days of every month in leap and common years, the weekday of every day of four years).',
+    'C09': 'Also: a tokenizer that served another dialect before, rejected setter calls in between, separators / quotes listed twice; the token list re-inspected after the same tokenizer went on to another table.',
+    'C10': 'Also: the same map object rendered before with other values and changed back in place.',
+    'C11': 'Also: two scanners alive at once and used alternately (event switch, variable other), the five queries in six orders, texts given as bytes that are not well-formed UTF-8.',
+    'C12': 'Also the configurations expression-custom and generic-2quotes.',
+    'C13': 'Also a third tokenizer: the expression tokenizer with the user-registered symbols -> => -- -= (Lexer.MultiSymbols / CanAbut know them).',
+    'C14': 'Also: quote characters that mean something to formatting and pattern functions (% \\ $ { * ^ ` |), one long-lived state per segment with earlier results re-inspected.',
+    'C15': 'Also the configurations expression-custom and generic-2quotes (a second quote state of another type; decoding is done by the tokenizer\'s own quote state), quoted }} / }}} / {{ inside mustache tags.',
+    'C16': 'Also: symbols containing U+0000, type codes beyond 16 bits and negative, the same symbol registered again with another type, instances of the expression symbol state (symbols registered at construction: Preset) following one another.',
+    'C17': 'Also: two reference objects with equal contents, a tokenizer with marker states read character by character with the ends of a new range read immediately before and after its registration, ranges lying entirely above U+FFFE.',
+    'C18': 'Also: a list returned by GetAll is re-inspected after later operations, the automatic variables must be separate objects (one changed in place, the others unchanged).',
+    'C19': 'Also: the default variables of a template are part of the digest and a rendering from the defaults happens between the renderings with explicit maps.',
+    'C20': 'Also: times with a monotonic clock reading, typed nil pointers and other uncommon host kinds.',
+}
+for _k, _v in _ADDED4.items():
+    DOC[_k]['level'] += ' ' + _v
